@@ -121,8 +121,6 @@ At the end of the file the reader looks at what is left after the last complete 
 line ends is a truncated entry, reported at the line where it starts = the number of lines delivered.
 Before the repair these bytes were dropped silently and a table without the last record was returned. -/
 
-def isBlank (b : Bytes) : Bool := b.all (fun x => x == NL || x == CR)
-
 /-- the bytes of the terminated file that the chunked reader never delivered -/
 def leftoverOf (n : Nat) (mode : Mode) (file : Bytes) (k : Nat) : Bytes :=
   (norm file).drop (readAll (Fmt.kLine n) true mode file k).flatten.length
@@ -133,6 +131,15 @@ def readValidateT (n : Nat) (marker : Nat) (checkPlus : Bool) (mode : Mode) (fil
   | some l => some l
   | none =>
     if isBlank (leftoverOf n mode file k) then none
+    else some (countNL (readAll (Fmt.kLine n) true mode file k).flatten)
+
+/-- chunked reading as the code does it: validate the delivered chunks in order; when the iteration ends, the reader's own
+end-of-file test on the bytes it is looking at (`readAllRest`: site 1 or site 2) -/
+def readValidateR (n : Nat) (marker : Nat) (checkPlus : Bool) (mode : Mode) (file : Bytes) (k : Nat) : Option Nat :=
+  match readValidate n marker checkPlus mode file k with
+  | some l => some l
+  | none =>
+    if isBlank (readAllRest (Fmt.kLine n) mode file k) then none
     else some (countNL (readAll (Fmt.kLine n) true mode file k).flatten)
 
 /-- `f.read()`: the whole file is one buffer; `Res.err` = "no complete entry" (`IncompleteEntryException`) -/
